@@ -1,6 +1,7 @@
 (* C17 -- vocabulary for the optimal-estimation theorems: symmetric positive (semi)definite matrices over an
    ordered field, defined by quadratic forms (no spectral theory), the Loewner order, and the two matrices
    whose inverses the formulas of typhon/retrieval/oem take.  Definitions only. *)
+Set Warnings "-notation-overridden,-ambiguous-paths".
 From mathcomp Require Import all_ssreflect all_algebra.
 Set Implicit Arguments.
 Unset Strict Implicit.
